@@ -210,9 +210,13 @@ class RecRemoteValue:
 
 
 async def _shield(aw):
-    """asyncio.shield: completes with the inner awaitable (its protection from cancellation is trusted)."""
+    """asyncio.shield: the inner awaitable runs on whatever happens to the waiter; the waiter either gets
+    its result or is cancelled while the inner one is still in progress (ghost 'cancel' decides)."""
     ghost("T").append("shield")
-    return await aw
+    await aw  # the read is on its way (GroupValueRead queued, ValueReader waiting)
+    if ghost("cancel")[0]:
+        raise asyncio.CancelledError()
+    ghost("T").append("read_done")
 
 
 def updater():
@@ -259,12 +263,14 @@ def start_and_stop_follow_the_connection_state(u):
     assert ghost("W")[len(w) :] == [("unregister_cb", u.connection_state_change_callback), ("stop", 0), ("stop", 1)] and not u.started
 
 
-@lemma("C35", params=dict(u=updater(), option=Choice(True, Const("init"), Const("every 10"), Const(TrackerOptions(StateTrackerType.EXPIRE, 5)))), stubs=STUBS + [(asyncio, "shield", _shield)])
-def a_registered_value_is_read_under_the_semaphore_and_only_while_started(u, option):
+@lemma("C35", params=dict(u=updater(), option=Choice(True, Const("init"), Const("every 10"), Const(TrackerOptions(StateTrackerType.EXPIRE, 5))), cancelled_at_shield=Bool()), stubs=STUBS + [(asyncio, "shield", _shield)])
+def a_registered_value_is_read_under_the_semaphore_and_only_while_started(u, option, cancelled_at_shield):
     """register_remote_value: the tracker is stored under the value's identity with the parsed policy and is
     started at once only while the updater is started (else the next CONNECTED starts it). Its read: inside
     the shared semaphore, after the outgoing queue is idle, one read_state(wait_for_result=True) of this
-    value, then the semaphore is released."""
+    value; the permit is given back only when that read is no longer in progress - also when the tracker's
+    task is cancelled (stop / reset) while it waits for the shielded read."""
+    ghost("cancel").append(cancelled_at_shield)
     u._workers = {0: RecTracker(0)}
     rv = RecRemoteValue()
     u.register_remote_value(rv, option)
@@ -277,8 +283,13 @@ def a_registered_value_is_read_under_the_semaphore_and_only_while_started(u, opt
         assert len(ghost("created")) == 1 and tr._task is ghost("created")[0]
     else:
         assert ghost("created") == [] and tr._task is None
-    run(tr._read_state())
-    assert ghost("T") == ["acquire", "queue_idle", "shield", ("read_state", True), "release"]
+    try:
+        run(tr._read_state())
+    except asyncio.CancelledError:
+        assert cancelled_at_shield
+    t = ghost("T")
+    assert t[:4] == ["acquire", "queue_idle", "shield", ("read_state", True)] and t[-1] == "release"
+    assert "read_done" in t and t.index("read_done") < t.index("release"), "the permit was given back while the read is still in progress"
 
 
 @lemma("C35", params=dict(u=updater(), known=Bool()))
